@@ -1,13 +1,16 @@
 package sim
 
 import (
+	"context"
 	"fmt"
 	"math"
 	"sort"
 	"strconv"
 	"strings"
+	"time"
 
 	v1 "k8s.io/api/core/v1"
+	metav1 "k8s.io/apimachinery/pkg/apis/meta/v1"
 
 	schedulingv1alpha2 "github.com/NVIDIA/KAI-scheduler/pkg/apis/scheduling/v1alpha2"
 )
@@ -119,14 +122,23 @@ func (p *PodView) PendingFree() bool {
 }
 
 type Snapshot struct {
-	Pods   []*PodView
-	ByName map[string]*PodView
-	Nodes  map[string]*v1.Node
-	BRs    []*schedulingv1alpha2.BindRequest
+	Pods      []*PodView
+	ByName    map[string]*PodView
+	Nodes     map[string]*v1.Node
+	BRs       []*schedulingv1alpha2.BindRequest
+	LastStart map[string]time.Time // workload -> kai.scheduler/last-start-timestamp of its PodGroup
+	Taken     time.Time
 }
 
 func TakeSnapshot(s *Store) *Snapshot {
-	snap := &Snapshot{ByName: map[string]*PodView{}, Nodes: map[string]*v1.Node{}}
+	snap := &Snapshot{ByName: map[string]*PodView{}, Nodes: map[string]*v1.Node{}, LastStart: map[string]time.Time{}, Taken: time.Now()}
+	if l, err := s.Kai.SchedulingV2alpha2().PodGroups("").List(context.Background(), metav1.ListOptions{}); err == nil {
+		for i := range l.Items {
+			if ts, err := time.Parse(time.RFC3339, l.Items[i].Annotations["kai.scheduler/last-start-timestamp"]); err == nil {
+				snap.LastStart[l.Items[i].Name] = ts
+			}
+		}
+	}
 	for _, n := range s.NodesList() {
 		snap.Nodes[n.Name] = n
 	}
